@@ -682,7 +682,9 @@ void Egraph::undoDistinction(PTRef tr_d) {
     auto index = enode_store.getDistIndex(tr_d);
     Pterm const & pt_d = logic.getPterm(tr_d);
     for (PTRef tr_c : pt_d) {
-        getEnode(enode_store.getERef(tr_c)).clearDistClass(index);
+        // The distinction was activated in the root of the argument's class (see assertDist)
+        ERef root = getEnode(enode_store.getERef(tr_c)).getRoot();
+        getEnode(root).clearDistClass(index);
     }
 }
 
